@@ -114,6 +114,12 @@ def rule_hitratio(ctx):
 
 
 # reviewed exemptions of COUNTGUARD: (function) -> reason
+COUNT_REVIEWED = {
+    # (function, shown denominator prefix) -> reason the guard on the inputs implies a non-empty denominator
+    "beat.continuity": "the success vector has max(#reference variation, #estimates) entries and #estimates > 1 on this path",
+    "segment.nce": "number of frames of an annotation that validate_structure accepted and that spans at least one frame (documented use)",
+}
+
 COUNT_EXEMPT = {
     "pattern.three_layer_FPR.compute_first_layer_PR": "inner occurrence lengths: an empty occurrence is outside the documented domain (pattern.validate documents only >= 1 occurrence per pattern)",
     "segment._adjusted_mutual_info_score": "private helper reached only from mutual_information after its emptiness exit (checked: caller guard)",
@@ -147,20 +153,26 @@ def rule_countguard(ctx, rule="C01.COUNTGUARD"):
                 continue
             good = False
             witness = None
+            reviewed = None
             for x in positive_facts(d.pc):
                 g = count_form(x)
                 if g is None:
                     continue
-                if g[1] is base or _shares_param(g[1], base):
+                # the very collection that is counted (or the same parameter counted another way)
+                if g[1] is base or (g[1].op == "param" and base.op == "param" and g[1] is base):
                     good = True
                     witness = x
                     break
+                if f.qual in COUNT_REVIEWED and _shares_param(g[1], base):
+                    good = True
+                    witness = x
+                    reviewed = COUNT_REVIEWED[f.qual]
             yield ob(
                 rule,
                 f,
                 "%s:count-den@%d" % (f.qual, _ordinal(s, d)),
                 good,
-                ("division by %s is reached only when %s is non-zero" % (tm.show(d.den, 3), tm.show(witness, 3))) if good else "division by the count %s is not guarded by an emptiness test on that collection (0/0 for an empty side)" % tm.show(d.den, 3),
+                ("division by %s is reached only when %s is non-zero%s" % (tm.show(d.den, 3), tm.show(witness, 3), (" (reviewed: %s)" % reviewed) if reviewed else "")) if good else "division by the count %s is not guarded by an emptiness test on that very collection (0/0 or ZeroDivisionError for an empty side)" % tm.show(d.den, 3),
                 node=d.node,
             )
 
@@ -341,7 +353,88 @@ def rule_constret(ctx):
     yield ob("C01.CONSTRET", f, "key.weighted_score:literals-only", alllit, "every return of the key score is a literal (range decided above)")
 
 
+# ------------------------------------------------------------- WEIGHTEDMEAN / FFORM
+
+
+def _prod_factors(t):
+    if t.op == "bin" and t.a[0] == "*":
+        return _prod_factors(t.a[1]) + _prod_factors(t.a[2])
+    return [t]
+
+
+WEIGHTED = ["melody.voicing_recall", "melody.voicing_false_alarm", "melody.raw_pitch_accuracy", "melody.raw_chroma_accuracy"]
+
+
+def rule_weightedmean(ctx):
+    """sum(w * x) / sum(w'): the normaliser sums the very weights that weight the numerator
+    (possibly masked in the numerator), so the ratio of a [0,1]-valued x cannot exceed 1."""
+    R = "C01.WEIGHTEDMEAN"
+    for q in WEIGHTED:
+        f = ctx.program.func(q, R)
+        s = ctx.S.get(q)
+        main = [r for r in s.returns if not is_lit(r.term)]
+        need(len(main) == 1, R, "%s: formula return not found" % q)
+        t = main[0].term
+        good = False
+        why = "score is not sum(weights * indicator) / sum(weights)"
+        if t.op == "bin" and t.a[0] == "/" and t.a[1].op == "call" and call_name(t.a[1]) == "np.sum" and t.a[2].op == "call" and call_name(t.a[2]) == "np.sum":
+            w = t.a[2].a[1][0]
+            facs = _prod_factors(t.a[1].a[1][0])
+            same = [x for x in facs if x is w or (x.op == "sub" and x.a[0] is w)]
+            others = [x for x in facs if x not in same]
+            bounded = all(_unit_valued(x, f) for x in others)
+            good = len(same) == 1 and bounded
+            why = "numerator sums %s times %d factor(s) valued in [0, 1]; normaliser sums %s" % (tm.show(same[0], 2) if same else "?", len(others), tm.show(w, 2))
+            if not same:
+                why = "normaliser sums %s, which is not the weight used in the numerator (%s): the ratio can exceed 1" % (tm.show(w, 2), ", ".join(tm.show(x, 2) for x in facs))
+        yield ob(R, f, "%s:normaliser" % q, good, why, node=main[0].node)
+
+
+def _unit_valued(x, f):
+    if x.op in ("cmp", "bool"):
+        return True
+    if x.op == "sub":
+        return _unit_valued(x.a[0], f)
+    if x.op == "param" and "voicing" in x.a[0]:
+        return True  # validate_voicing: within [0, 1]
+    if x.op == "call" and call_name(x) == "astype" and x.a[1] and x.a[1][0].op in ("cmp", "bool"):
+        return True
+    return False
+
+
+def rule_fform(ctx):
+    """util.f_measure is the weighted harmonic mean (1 + b^2) P R / (b^2 P + R): it lies between min(P, R) and max(P, R)."""
+    from ..mirror import Mirror
+
+    R = "C01.FFORM"
+    f = ctx.program.func("util.f_measure", R)
+    s = ctx.S.get(f.qual)
+    main = [r for r in s.returns if not is_lit(r.term)]
+    need(len(main) == 1, R, "util.f_measure: formula return not found")
+    P, Rc, b = tm.param("precision"), tm.param("recall"), tm.param("beta")
+    b2 = tm.binop("**", b, tm.const(2))
+    ref = tm.binop("/", tm.binop("*", tm.binop("*", tm.binop("+", tm.const(1), b2), P), Rc), tm.binop("+", tm.binop("*", b2, P), Rc))
+    M = Mirror(f)
+    good = M.norm(main[0].term) is M.norm(ref)
+    yield ob(R, f, "util.f_measure:harmonic-mean", good, "F = (1 + beta^2) * P * R / (beta^2 * P + R)" if good else "F-measure term %s is not the weighted harmonic mean" % tm.show(main[0].term, 5), node=main[0].node)
+    zero = [r for r in s.returns if is_lit(r.term)]
+    yield ob(R, f, "util.f_measure:zero-case", len(zero) == 1 and lit(zero[0].term) == 0, "P = R = 0 returns 0")
+
+
+def rule_matchsrc(ctx):
+    """Shared with C05: the hit count in every ratio is the size of a one-to-one matching."""
+    from . import c05
+
+    for o in c05.rule_matchsrc(ctx):
+        if ":return" in o.construct:
+            o.rule = "C01.MATCHSRC"
+            yield o
+
+
 RULES = [
+    ("C01.MATCHSRC", 4, rule_matchsrc),
+    ("C01.WEIGHTEDMEAN", 4, rule_weightedmean),
+    ("C01.FFORM", 2, rule_fform),
     ("C01.HITRATIO", 19, rule_hitratio),
     ("C01.COUNTGUARD", 23, rule_countguard),
     ("C01.GUARDTABLE", 25, rule_guardtable),
